@@ -44,7 +44,7 @@ func verifyFunctions(P *Program, C *Contracts, keys []string, opt solveOpts, fil
 	}
 	var jobs []job
 	var wg sync.WaitGroup
-	sem := make(chan struct{}, 6)
+	sem := make(chan struct{}, 4)
 	// a contract on a generic function covers every instance the program contains
 	var expanded []string
 	for _, k := range keys {
@@ -455,7 +455,11 @@ func cmdCheck(args []string) int {
 		fmt.Sscanf(v, "%d", &secs) // testing aid: per-query limit
 	}
 	wd, _ := os.MkdirTemp("/var/tmp", "sonicvc-")
-	defer os.RemoveAll(wd)
+	if os.Getenv("SONICVC_KEEPWD") == "" {
+		defer os.RemoveAll(wd)
+	} else {
+		fmt.Println("workdir", wd)
+	}
 	opt := solveOpts{secs: secs, all: all, workdir: wd, keep: true}
 	filter := func(o *Obligation) bool {
 		return hasProp(o.Props, prop) || depOnly[o.Fn] || depOnly[stripTypeArgs(o.Fn)]
